@@ -720,7 +720,7 @@ def run(ctx):
     m = vlib.build_model("C30")
     rng = ctx.rng(STREAM)
     corpus = load_corpus(os.path.join(vlib.ROOT, "corpus", "C30.prog.txt"))
-    nprog = ctx.n(200, 6000)
+    nprog = ctx.n(200, 2000)
     cases = []
     dist = {}
     for i in range(nprog):
